@@ -644,70 +644,91 @@ def unhamPageLink (v : View) (i : Nat) (magazine : Nat) : Option (Nat × Nat) :=
     some ((if x == 0 then 8 else x) * 256 + b1, (b3 * 256 + b2) &&& 0x3F7F)
   | _, _, _ => none
 
-def setLut (l : List Int) (idx : Nat) (val : Int) (site : String) : List Int × List Aux :=
-  if idx < l.length then (l.set idx val, []) else (l, [Aux.fault site])
+/-- store into a look-up array of `extent` entries (extent regenerated from the C headers) -/
+def setLut (l : List Int) (extent idx : Nat) (val : Int) (site : String) : List Int × List Aux :=
+  if idx < extent then (l.set idx val, []) else (l, [Aux.fault site])
+
+/-- The (pair number i, table index) sequence of the look-up table loops of `parse_mot`
+    (packets 1..8 and 9..14); it does not depend on the packet contents. -/
+def motItems (packet : Nat) : List (Nat × Nat) :=
+  if 1 ≤ packet && packet ≤ 8 then
+    (List.range 20).map fun i => (i, ((packet - 1) <<< 5) + i + (if i ≥ 10 then 6 else 0))
+  else if 9 ≤ packet && packet ≤ 14 then
+    -- `if (i == 6 || i == 12) { if (index == 0x100) break; else index += 10; }`
+    ((List.range 20).foldl (fun (acc : List (Nat × Nat) × Nat × Bool) i =>
+      let (l, index, stop) := acc
+      if stop then acc else
+      if (i == 6 || i == 12) && index == 0x100 then (l, index, true) else
+      let index := if i == 6 || i == 12 then index + 10 else index
+      (l ++ [(i, index)], index + 1, false)) ([], (packet - 9) * 0x30 + 10, false)).1
+  else []
+
+/-- one pair of `parse_mot`'s look-up table loops -/
+def motLutStep (v : View) (acc : Magazine × List Aux) (it : Nat × Nat) : Magazine × List Aux :=
+  match v.g8 (2 * it.1), v.g8 (2 * it.1 + 1) with
+  | some n0, some n1 =>
+    let r1 := setLut acc.1.popLut ttxLutSize it.2 ((n0 &&& 7 : Nat) : Int) "mot:pop_lut"
+    let r2 := setLut acc.1.drcsLut ttxLutSize it.2 ((n1 &&& 7 : Nat) : Int) "mot:drcs_lut"
+    ({ acc.1 with popLut := r1.1, drcsLut := r2.1 }, acc.2 ++ r1.2 ++ r2.2)
+  | _, _ => acc
+
+/-- one POP link of `parse_mot` packets 19, 20, 22, 23 (`pk` = packet, 22/23 already decremented) -/
+def motPopLinkStep (v : View) (pk : Nat) (acc : Magazine × List Aux) (i : Nat) : Magazine × List Aux :=
+  let m := acc.1
+  let n := (List.range 10).map fun j => v.g8 (10 * i + j)
+  if n.any Option.isNone then acc else
+  let g := fun j => (n.getD j none).getD 0
+  let idx := (pk - 19) * 4 + i
+  let old := m.popLink.getD idx PopLink.ff
+  let n4 := g 4
+  let x := (n4 >>> 1) &&& 3
+  let pl : PopLink :=
+    { old with
+      pgno := ((if g 0 &&& 7 == 0 then 8 else g 0 &&& 7) <<< 8) + (g 1 <<< 4) + g 2
+      blackBg := if n4 &&& 1 != 0 then 0 else (n4 >>> 3 : Nat)
+      left := if n4 &&& 1 != 0 then 0 else ([0, 16, 0, 8].getD x 0 : Nat)
+      right := if n4 &&& 1 != 0 then 0 else ([0, 0, 16, 8].getD x 0 : Nat)
+      type0 := (g 5 &&& 3 : Nat)
+      addr0 := ((g 7 <<< 4) + g 6 : Nat)
+      type1 := (g 5 >>> 2 : Nat)
+      addr1 := ((g 9 <<< 4) + g 8 : Nat) }
+  if idx < ttxPopLinks then ({ m with popLink := m.popLink.set idx pl }, acc.2)
+  else (m, acc.2 ++ [Aux.fault "mot:pop_link"])
+
+/-- one DRCS link of `parse_mot` packets 21, 24 -/
+def motDrcsLinkStep (v : View) (packet : Nat) (acc : Magazine × List Aux) (i : Nat) : Magazine × List Aux :=
+  let m := acc.1
+  let n := (List.range 4).map fun j => v.g8 (4 * i + j)
+  if n.any Option.isNone then acc else
+  let g := fun j => (n.getD j none).getD 0
+  let idx := (if packet == 21 then 0 else 8) + i
+  let val : Int := (((if g 0 &&& 7 == 0 then 8 else g 0 &&& 7) <<< 8) + (g 1 <<< 4) + g 2 : Nat)
+  let r := setLut m.drcsLink ttxDrcsLinks idx val "mot:drcs_link"
+  ({ m with drcsLink := r.1 }, acc.2 ++ r.2)
 
 /-- `parse_mot (mag, raw, packet)`; always TRUE -/
 def parseMot (m : Magazine) (v : View) (packet : Nat) : Magazine × List Aux :=
-  if 1 ≤ packet && packet ≤ 8 then
-    (List.range 20).foldl (fun (acc : Magazine × List Aux) i =>
-      let (m, ev) := acc
-      let index := ((packet - 1) <<< 5) + i + (if i ≥ 10 then 6 else 0)
-      match v.g8 (2 * i), v.g8 (2 * i + 1) with
-      | some n0, some n1 =>
-        let (pl, e1) := setLut m.popLut index ((n0 &&& 7 : Nat) : Int) "mot:pop_lut"
-        let (dl, e2) := setLut m.drcsLut index ((n1 &&& 7 : Nat) : Int) "mot:drcs_lut"
-        ({ m with popLut := pl, drcsLut := dl }, ev ++ e1 ++ e2)
-      | _, _ => (m, ev)) (m, [])
-  else if 9 ≤ packet && packet ≤ 14 then
-    let (m, ev, _, _) := (List.range 20).foldl (fun (acc : Magazine × List Aux × Nat × Bool) i =>
-      let (m, ev, index, stop) := acc
-      if stop then acc else
-      let (index, stop) :=
-        if i == 6 || i == 12 then (if index == 0x100 then (index, true) else (index + 10, false))
-        else (index, false)
-      if stop then (m, ev, index, true) else
-      match v.g8 (2 * i), v.g8 (2 * i + 1) with
-      | some n0, some n1 =>
-        let (pl, e1) := setLut m.popLut index ((n0 &&& 7 : Nat) : Int) "mot:pop_lut"
-        let (dl, e2) := setLut m.drcsLut index ((n1 &&& 7 : Nat) : Int) "mot:drcs_lut"
-        ({ m with popLut := pl, drcsLut := dl }, ev ++ e1 ++ e2, index + 1, false)
-      | _, _ => (m, ev, index + 1, false)) (m, [], (packet - 9) * 0x30 + 10, false)
-    (m, ev)
+  if 1 ≤ packet && packet ≤ 14 then (motItems packet).foldl (motLutStep v) (m, [])
   else if packet == 19 || packet == 20 || packet == 22 || packet == 23 then
-    let pk := if packet ≥ 22 then packet - 1 else packet
-    (List.range 4).foldl (fun (acc : Magazine × List Aux) i =>
-      let (m, ev) := acc
-      let n := (List.range 10).map fun j => v.g8 (10 * i + j)
-      if n.any Option.isNone then (m, ev) else
-      let g := fun j => (n.getD j none).getD 0
-      let idx := (pk - 19) * 4 + i
-      let old := m.popLink.getD idx PopLink.ff
-      let n4 := g 4
-      let x := (n4 >>> 1) &&& 3
-      let pl : PopLink :=
-        { old with
-          pgno := ((if g 0 &&& 7 == 0 then 8 else g 0 &&& 7) <<< 8) + (g 1 <<< 4) + g 2
-          blackBg := if n4 &&& 1 != 0 then 0 else (n4 >>> 3 : Nat)
-          left := if n4 &&& 1 != 0 then 0 else ([0, 16, 0, 8].getD x 0 : Nat)
-          right := if n4 &&& 1 != 0 then 0 else ([0, 0, 16, 8].getD x 0 : Nat)
-          type0 := (g 5 &&& 3 : Nat)
-          addr0 := ((g 7 <<< 4) + g 6 : Nat)
-          type1 := (g 5 >>> 2 : Nat)
-          addr1 := ((g 9 <<< 4) + g 8 : Nat) }
-      if idx < m.popLink.length then ({ m with popLink := m.popLink.set idx pl }, ev)
-      else (m, ev ++ [Aux.fault "mot:pop_link"])) (m, [])
-  else if packet == 21 || packet == 24 then
-    (List.range 8).foldl (fun (acc : Magazine × List Aux) i =>
-      let (m, ev) := acc
-      let n := (List.range 4).map fun j => v.g8 (4 * i + j)
-      if n.any Option.isNone then (m, ev) else
-      let g := fun j => (n.getD j none).getD 0
-      let idx := (if packet == 21 then 0 else 8) + i
-      let val : Int := (((if g 0 &&& 7 == 0 then 8 else g 0 &&& 7) <<< 8) + (g 1 <<< 4) + g 2 : Nat)
-      let (dl, e) := setLut m.drcsLink idx val "mot:drcs_link"
-      ({ m with drcsLink := dl }, ev ++ e)) (m, [])
+    (List.range 4).foldl (motPopLinkStep v (if packet ≥ 22 then packet - 1 else packet)) (m, [])
+  else if packet == 21 || packet == 24 then (List.range 8).foldl (motDrcsLinkStep v packet) (m, [])
   else (m, [])
+
+/-- `pointer[index0 + 2 i + 0..1]`, i = 1..12, for the triplets that decoded: index check only -/
+def popPointerFaults (v : View) (index0 : Nat) : List Aux :=
+  (List.range 12).foldl (fun ev k =>
+    match v.g24 (k + 1) with
+    | some _ => if index0 + 2 * (k + 1) + 1 < POP_POINTER_SIZE then ev else
+        if ev.isEmpty then [Aux.fault "pop:pointer"] else ev
+    | none => ev) []
+
+/-- `triplet[base + i]`, i = 0..12, for the triplets that decoded: index check only -/
+def popTripletFaults (v : View) (base : Nat) : List Aux :=
+  (List.range 13).foldl (fun ev i =>
+    match v.g24 i with
+    | some _ => if base + i < POP_TRIPLET_SIZE then ev else
+        if ev.isEmpty then [Aux.fault "pop:triplet"] else ev
+    | none => ev) []
 
 /-- `parse_pop (vtp, raw, packet)`: return value and bounds of the indices written
     (contents of `data.pop` are not modelled) -/
@@ -717,22 +738,8 @@ def parsePop (v : View) (packet : Nat) : Bool × List Aux :=
   | some designation =>
     let packet := if packet == 26 then packet + designation else packet
     let pointers : Bool × List Aux :=
-      let index0 := (packet - 1) * (if ttxFixF23 then 24 else 26)   -- finding F23
-      let ev := (List.range 12).foldl (fun ev k =>
-        let i := k + 1
-        match v.g24 i with
-        | some _ => if index0 + 2 * i + 1 < POP_POINTER_SIZE then ev else
-            if ev.isEmpty then [Aux.fault "pop:pointer"] else ev
-        | none => ev) []
-      (true, ev)
-    let triplets : Bool × List Aux :=
-      let base := (packet - 3) * 13
-      let ev := (List.range 13).foldl (fun ev i =>
-        match v.g24 i with
-        | some _ => if base + i < POP_TRIPLET_SIZE then ev else
-            if ev.isEmpty then [Aux.fault "pop:triplet"] else ev
-        | none => ev) []
-      (true, ev)
+      (true, popPointerFaults v ((packet - 1) * (if ttxFixF23 then 24 else 26)))   -- finding F23
+    let triplets : Bool × List Aux := (true, popTripletFaults v ((packet - 3) * 13))
     if 1 ≤ packet && packet ≤ 2 then
       if designation &&& 1 == 0 then (false, []) else pointers
     else if 3 ≤ packet && packet ≤ 4 then
@@ -740,24 +747,38 @@ def parsePop (v : View) (packet : Nat) : Bool × List Aux :=
     else if 5 ≤ packet && packet ≤ 42 then triplets
     else (false, [])
 
+/-- what one PTU of `convert_drcs`'s second loop does: (PTUs consumed, bytes written at `d`,
+    bytes read at `p`, advance of `d`, advance of `p`).  `i` = index of the PTU.
+    * DRCS_MODE_6_5_4 wrote 120 and read 80 bytes for a single PTU before repair F22.
+    * DRCS_MODE_12_10_2 / _4 look at the following 1 / 3 PTUs (`p[j + 20]`, ... `p[j + 60]`); for
+      the last PTU of a page these lie behind `raw[]` unless the repair `ttxFixDrcsLastPtu` is in.
+    (An `invalid` PTU is not read in C; the model does not track `invalid` and assumes the access.)
+    The two repair flags are parameters so that both code versions can be reasoned about. -/
+def drcsPtu (fixF22 fixLastPtu : Bool) (m i : Nat) : Nat × Nat × Nat × Nat × Nat :=
+  if m == 0 then (1, 60, 20, 60, 20)
+  else if m == 1 then
+    if fixLastPtu && i + 1 ≥ DRCS_PTUS then (2, 0, 0, 120, 40) else (2, 60, 40, 120, 40)
+  else if m == 2 then
+    if fixLastPtu && i + 3 ≥ DRCS_PTUS then (4, 0, 0, 240, 80) else (4, 60, 80, 240, 80)
+  else if m == 3 then (if fixF22 then (1, 60, 20, 60, 20) else (1, 120, 80, 120, 80))
+  else (1, 0, 0, 60, 20)
+
+/-- bytes of `raw[1] ..` a DRCS page may read: rows 1..25 -/
+def DRCS_RAW_BYTES : Nat := (ttxRawRows - 1) * ttxRawCols
+
+/-- the loop `for (i = 0; i < 48; i++) switch (mode[i])`: did an access leave `drcs.chars[]`
+    (write) or `raw[1..25]` (read)? -/
+def drcsWalk (fixF22 fixLastPtu : Bool) (modes : List Nat) : Nat → Nat → Nat → Nat → Bool
+  | 0, _, _, _ => false
+  | fuel + 1, i, d, p =>
+    if i ≥ DRCS_PTUS then false else
+    let (n, w, r, dd, dp) := drcsPtu fixF22 fixLastPtu (modes.getD i 0) i
+    (d + w > DRCS_CHARS_BYTES || p + r > DRCS_RAW_BYTES) || drcsWalk fixF22 fixLastPtu modes fuel (i + n) (d + dd) (p + dp)
+
 /-- `convert_drcs`: bounds of the write pointer `d` into `drcs.chars` and of the read pointer `p`
-    into `drcs.lop.raw[1..24]` (contents not modelled).  DRCS_MODE_6_5_4 advances `d` by 120 and `p`
-    by 80 for a single PTU, so a page with enough mode-3 PTUs runs both pointers off their arrays. -/
+    into `drcs.lop.raw[1..]` (contents not modelled) -/
 def convertDrcsBounds (modes : List Nat) : List Aux :=
-  let rec go (fuel i d p : Nat) (bad : Bool) : Bool :=
-    match fuel with
-    | 0 => bad
-    | fuel + 1 =>
-      if i ≥ DRCS_PTUS then bad else
-      let m := modes.getD i 0
-      if m == 0 then go fuel (i + 1) (d + 60) (p + 20) (bad || d + 60 > DRCS_CHARS_BYTES || p + 20 > 24 * 40)
-      else if m == 1 then go fuel (i + 2) (d + 120) (p + 40) (bad || d + 120 > DRCS_CHARS_BYTES || p + 40 > 24 * 40)
-      else if m == 2 then go fuel (i + 4) (d + 240) (p + 80) (bad || d + 240 > DRCS_CHARS_BYTES || p + 80 > 24 * 40)
-      else if m == 3 then
-        if ttxFixF22 then go fuel (i + 1) (d + 60) (p + 20) (bad || d + 60 > DRCS_CHARS_BYTES || p + 20 > 24 * 40)
-        else go fuel (i + 1) (d + 120) (p + 80) (bad || d + 120 > DRCS_CHARS_BYTES || p + 80 > 24 * 40)  -- finding F22
-      else go fuel (i + 1) (d + 60) (p + 20) bad
-  if go DRCS_PTUS 0 0 0 false then [Aux.fault "drcs:chars"] else []
+  if drcsWalk ttxFixF22 ttxFixDrcsLastPtu modes DRCS_PTUS 0 0 0 then [Aux.fault "drcs:chars"] else []
 
 /-- `parse_ait`: only index bounds (`title[(packet - 1) * 2 + 0..1]`) -/
 def parseAitBounds (packet : Nat) : List Aux :=
@@ -779,117 +800,160 @@ def unhamTopPageLink (v : View) (i : Nat) : Option Link :=
   let fn : Int := if g 7 == 2 then FN_AIT else if g 7 == 1 then FN_MPT else if g 7 == 3 then FN_MPT_EX else FN_UNKNOWN
   some ⟨fn, pgno, (subno &&& 0x3F7F : Nat)⟩
 
+/-- `cache_network_page_stat (cn, pgno)` evaluated for its `assert` only -/
+def statAssert (pgno : Nat) : List Aux :=
+  if (statIdx pgno).isNone then [Aux.fault "assert:cache_network_page_stat"] else []
+
+/-- one entry of a BTT row (packets 1..20): acc = ((network, entries done j, `break` taken), events) -/
+def bttEntry (v : View) (index rawPos : Nat) (acc : (Net × Nat × Bool) × List Aux) (_k : Nat) :
+    (Net × Nat × Bool) × List Aux :=
+  let s := acc.1.1
+  let j := acc.1.2.1
+  if acc.1.2.2 then acc else
+  let pgno := 0x100 + index + j
+  match v.g8 (rawPos + j) with
+  | none => ((s, j, true), acc.2 ++ statAssert pgno)
+  | some code =>
+    if code == 1 then
+      -- BTT_SUBTITLE
+      let r0 := s.setStat pgno (fun ps => { ps with pageType := PT_SUBTITLE })
+      let r1 := r0.1.get pgno 0 0
+      let r2 : Net × List Aux := match r1.1 with
+        | some q => r1.2.1.setStat pgno (fun ps => { ps with charset := intToU8 (pageLanguage r1.2.1 (some q) 0 0) })
+        | none => (r1.2.1, [])
+      let r3 := r2.1.setStat pgno (fun ps => { ps with subcode := 0 })
+      ((r3.1, j + 1, false), acc.2 ++ r0.2 ++ r1.2.2 ++ r2.2 ++ r3.2)
+    else
+      let ty : Option Nat :=
+        if code == 2 || code == 3 then some PT_PROGR_SCHEDULE
+        else if code == 4 || code == 5 then some PT_TOP_BLOCK
+        else if code == 6 || code == 7 then some PT_TOP_GROUP
+        else if 8 ≤ code && code ≤ 11 then some PT_NORMAL
+        else none
+      match ty with
+      | none =>
+        let r0 := s.setStat pgno (fun ps => { ps with pageType := PT_NO_PAGE })
+        ((r0.1, j + 1, false), acc.2 ++ r0.2)
+      | some ty =>
+        let multi := code == 3 || code == 5 || code == 7 || code == 10
+        let r0 := s.setStat pgno (fun ps =>
+          { ps with pageType := ty, subcode := if multi then ps.subcode else 0 })
+        ((r0.1, j + 1, false), acc.2 ++ r0.2)
+
+/-- one group of ten entries; acc = ((network, index, raw position), events).  After a `break`
+    `index` and `raw` are short of the end of the group, as in C. -/
+def bttGroup (v : View) (acc : (Net × Nat × Nat) × List Aux) (_g : Nat) : (Net × Nat × Nat) × List Aux :=
+  let index := acc.1.2.1
+  let rawPos := acc.1.2.2
+  let r := (List.range 10).foldl (bttEntry v index rawPos) ((acc.1.1, 0, false), acc.2)
+  let index := index + r.1.2.1
+  ((r.1.1, index + (if index &&& 0xFF == 0x9A then 0x66 else 0x06), rawPos + r.1.2.1 + (if r.1.2.2 then 1 else 0)), r.2)
+
+/-- one TOP page link of BTT packets 21..23 -/
+def bttLinkStep (v : View) (packet : Nat) (acc : Net × List Aux) (i : Nat) : Net × List Aux :=
+  match unhamTopPageLink v (8 * i) with
+  | none => acc
+  | some l =>
+    let idx := (packet - 21) * 5 + i
+    if idx < BTT_LINKS then
+      let s := { acc.1 with bttLink := acc.1.bttLink.set idx l }
+      if l.function == FN_MPT || l.function == FN_AIT || l.function == FN_MPT_EX then
+        let r := s.setStat l.pgno.toNat (fun ps => { ps with pageType := PT_TOP_PAGE, subcode := 0 })
+        (r.1, acc.2 ++ r.2)
+      else (s, acc.2)
+    else
+      -- before commit 3806eea `btt_link` had 2 * 5 entries but packet 23 addresses entries 10..14
+      (acc.1, acc.2 ++ [Aux.fault "btt:btt_link"])
+
 /-- `parse_btt (vbi, raw, packet)`; always TRUE -/
 def parseBtt (s : Net) (v : View) (packet : Nat) : Net × List Aux :=
   if 1 ≤ packet && packet ≤ 20 then
-    -- outer i < 4, inner j < 10 with early `break` on a Hamming error
-    let (s, ev, _, _) := (List.range 4).foldl (fun (acc : Net × List Aux × Nat × Nat) _ =>
-      let (s, ev, index, rawPos) := acc
-      let (s, ev, index, rawPos, _) := (List.range 10).foldl
-        (fun (acc : Net × List Aux × Nat × Nat × Bool) _ =>
-          let (s, ev, index, rawPos, brk) := acc
-          if brk then acc else
-          let pgno := 0x100 + index
-          let chk := if (statIdx pgno).isNone then [Aux.fault "assert:cache_network_page_stat"] else []
-          match v.g8 rawPos with
-          | none => (s, ev ++ chk, index, rawPos + 1, true)
-          | some code =>
-            if code == 1 then
-              -- BTT_SUBTITLE
-              let (s, e0) := s.setStat pgno (fun ps => { ps with pageType := PT_SUBTITLE })
-              let (cp, s, e1) := s.get pgno 0 0
-              let (s, e2) := match cp with
-                | some q => s.setStat pgno (fun ps => { ps with charset := intToU8 (pageLanguage s (some q) 0 0) })
-                | none => (s, [])
-              let (s, e3) := s.setStat pgno (fun ps => { ps with subcode := 0 })
-              (s, ev ++ e0 ++ e1 ++ e2 ++ e3, index + 1, rawPos + 1, false)
-            else
-              let ty : Option Nat :=
-                if code == 2 || code == 3 then some PT_PROGR_SCHEDULE
-                else if code == 4 || code == 5 then some PT_TOP_BLOCK
-                else if code == 6 || code == 7 then some PT_TOP_GROUP
-                else if 8 ≤ code && code ≤ 11 then some PT_NORMAL
-                else none
-              match ty with
-              | none =>
-                let (s, e0) := s.setStat pgno (fun ps => { ps with pageType := PT_NO_PAGE })
-                (s, ev ++ e0, index + 1, rawPos + 1, false)
-              | some ty =>
-                let multi := code == 3 || code == 5 || code == 7 || code == 10
-                let (s, e0) := s.setStat pgno (fun ps =>
-                  { ps with pageType := ty, subcode := if multi then ps.subcode else 0 })
-                (s, ev ++ e0, index + 1, rawPos + 1, false))
-        (s, ev, index, rawPos, false)
-      (s, ev, index + (if index &&& 0xFF == 0x9A then 0x66 else 0x06), rawPos))
-      (s, [], dec2bcdp.getD (packet - 1) 0, 0)
-    (s, ev)
+    let r := (List.range 4).foldl (bttGroup v) ((s, dec2bcdp.getD (packet - 1) 0, 0), [])
+    (r.1.1, r.2)
   else if 21 ≤ packet && packet ≤ 23 then
-    let s := { s with haveTop := true }
-    (List.range 5).foldl (fun (acc : Net × List Aux) i =>
-      let (s, ev) := acc
-      match unhamTopPageLink v (8 * i) with
-      | none => (s, ev)
-      | some l =>
-        let idx := (packet - 21) * 5 + i
-        if idx < BTT_LINKS then
-          let s := { s with bttLink := s.bttLink.set idx l }
-          if l.function == FN_MPT || l.function == FN_AIT || l.function == FN_MPT_EX then
-            let (s, e) := s.setStat l.pgno.toNat (fun ps => { ps with pageType := PT_TOP_PAGE, subcode := 0 })
-            (s, ev ++ e)
-          else (s, ev)
-        else
-          -- btt_link[2 * 5] but packet 23 addresses entries 10..14: the C code writes behind the
-          -- array (into have_top and _magazines[0].extension); not modelled further
-          (s, ev ++ [Aux.fault "btt:btt_link"])) (s, [])
+    (List.range 5).foldl (bttLinkStep v packet) ({ s with haveTop := true }, [])
   else (s, [])
+
+/-- The (raw position, page number) sequence of `parse_mpt` (packets 1..20): four groups of ten
+    BCD page numbers; it does not depend on the packet contents. -/
+def mptItems (packet : Nat) : List (Nat × Nat) :=
+  if 1 ≤ packet && packet ≤ 20 then
+    ((List.range 4).foldl (fun (acc : List (Nat × Nat) × Nat) i =>
+      let index := acc.2
+      let l := acc.1 ++ (List.range 10).map fun j => (10 * i + j, 0x100 + index + j)
+      let index := index + 10
+      (l, index + (if index &&& 0xFF == 0x9A then 0x66 else 0x06))) ([], dec2bcdp.getD (packet - 1) 0)).1
+  else []
+
+def mptStep (g : Nat → Option Nat) (acc : Net × List Aux) (it : Nat × Nat) : Net × List Aux :=
+  match g it.1 with
+  | none => acc
+  | some n =>
+    let pgno := it.2
+    let ps := acc.1.getStat pgno
+    let n := if n > 9 then 0xFFFE else n
+    if ps.pageType != PT_NO_PAGE && ps.pageType != PT_UNKNOWN && (ps.subcode ≥ 0xFFFF || n > ps.subcode) then
+      let r := acc.1.setStat pgno (fun ps => { ps with subcode := n })
+      (r.1, acc.2 ++ r.2)
+    else (acc.1, acc.2 ++ statAssert pgno)
 
 /-- `parse_mpt`; always TRUE -/
 def parseMpt (s : Net) (g : Nat → Option Nat) (packet : Nat) : Net × List Aux :=
-  if 1 ≤ packet && packet ≤ 20 then
-    let (s, ev, _) := (List.range 4).foldl (fun (acc : Net × List Aux × Nat) i =>
-      let (s, ev, index) := acc
-      let (s, ev) := (List.range 10).foldl (fun (acc : Net × List Aux) j =>
-        let (s, ev) := acc
-        match g (10 * i + j) with
-        | none => (s, ev)
-        | some n =>
-          let pgno := 0x100 + index + j
-          let ps := s.getStat pgno
-          let n := if n > 9 then 0xFFFE else n
-          if ps.pageType != PT_NO_PAGE && ps.pageType != PT_UNKNOWN && (ps.subcode ≥ 0xFFFF || n > ps.subcode) then
-            let (s, e) := s.setStat pgno (fun ps => { ps with subcode := n })
-            (s, ev ++ e)
-          else
-            (s, ev ++ (if (statIdx pgno).isNone then [Aux.fault "assert:cache_network_page_stat"] else [])))
-        (s, ev)
-      let index := index + 10
-      (s, ev, index + (if index &&& 0xFF == 0x9A then 0x66 else 0x06))) (s, [], dec2bcdp.getD (packet - 1) 0)
-    (s, ev)
-  else (s, [])
+  (mptItems packet).foldl (mptStep g) (s, [])
+
+/-- one entry of `parse_mpt_ex`: acc = ((network, `break` taken), events) -/
+def mptExStep (lk : Nat → Option Link) (acc : (Net × Bool) × List Aux) (i : Nat) : (Net × Bool) × List Aux :=
+  if acc.1.2 then acc else
+  match lk (8 * i) with
+  | none => acc
+  | some p =>
+    -- p.pgno is already within 0x100..0x8FF
+    if p.subno < 1 then acc else
+    let pgno := p.pgno.toNat
+    let ps := acc.1.1.getStat pgno
+    if ps.pageType != PT_NO_PAGE && ps.pageType != PT_UNKNOWN
+       && (p.subno.toNat > ps.subcode || ps.subcode ≥ 0xFFFE) then
+      let r := acc.1.1.setStat pgno (fun ps => { ps with subcode := p.subno.toNat })
+      ((r.1, false), acc.2 ++ r.2)
+    else acc
 
 /-- `parse_mpt_ex`; always TRUE -/
 def parseMptEx (s : Net) (lk : Nat → Option Link) (packet : Nat) : Net × List Aux :=
   if 1 ≤ packet && packet ≤ 23 then
-    let (s, ev, _) := (List.range 5).foldl (fun (acc : Net × List Aux × Bool) i =>
-      let (s, ev, brk) := acc
-      if brk then acc else
-      match lk (8 * i) with
-      | none => acc
-      | some p =>
-        -- p.pgno is already within 0x100..0x8FF
-        if p.subno < 1 then acc else
-        let pgno := p.pgno.toNat
-        let ps := s.getStat pgno
-        if ps.pageType != PT_NO_PAGE && ps.pageType != PT_UNKNOWN
-           && (p.subno.toNat > ps.subcode || ps.subcode ≥ 0xFFFE) then
-          let (s, e) := s.setStat pgno (fun ps => { ps with subcode := p.subno.toNat })
-          (s, ev ++ e, false)
-        else acc) (s, [], false)
-    (s, ev)
+    let r := (List.range 5).foldl (mptExStep lk) ((s, false), [])
+    (r.1.1, r.2)
   else (s, [])
 
 /-- a stored raw row seen through the Hamming accessors (`vbi_convert_page`, `parse_mip`) -/
 def rowView (k : Kind) (row : List Nat) : View := view k ([0, 0] ++ row)
+
+/-- the `switch (code)` of `parse_mip_page`: (network, events, subpage index, page type, subcode),
+    or `none` for `return FALSE` -/
+def mipClassify (s : Net) (vtp : Page) (pgno code spi : Nat) : Option (Net × List Aux × Nat × Nat × Nat) :=
+  if (0x02 ≤ code && code ≤ 0x4F) || (0x82 ≤ code && code ≤ 0xCF) then
+    some (s, [], spi, if code ≥ 0x80 then PT_PROGR_SCHEDULE else PT_NORMAL, code &&& 0x7F)
+  else if 0x70 ≤ code && code ≤ 0x77 then
+    let r1 := s.get pgno 0 0
+    -- `code & 7` is evaluated after `code = VBI_SUBTITLE_PAGE`, i.e. national = 0
+    let lang := pageLanguage r1.2.1 r1.1 pgno 0
+    let r2 := r1.2.1.setStat pgno (fun ps => { ps with charset := intToU8 lang })
+    some (r2.1, r1.2.2 ++ r2.2, spi, PT_SUBTITLE, 0)
+  else if code == 0x50 || code == 0x51 || code == 0xD0 || code == 0xD1 || code == 0xE0 || code == 0xE1
+          || code == 0x7B || code == 0xF8 then
+    if spi > 10 * 13 then none else
+    let row := vtp.raw.getD (spi / 13 + 15) zeroRow
+    let col := (spi % 13) * 3 + 1
+    let rv := rowView .rowH8 row
+    match rv.g16 col, rv.g8 (col + 2) with
+    | some lo, some hi =>
+      let subc := lo ||| (hi <<< 8)
+      let ty := if code == 0xF8 then PT_KEYWORD else if code == 0x7B then PT_CURRENT_PROGR
+                else if code ≥ 0xE0 then PT_CA_DATA else if code ≥ 0xD0 then PT_PROGR_SCHEDULE else PT_NORMAL
+      if code &&& 15 == 1 then some (s, [], spi + 1, ty, subc + 4096)
+      else if subc < 2 then none
+      else some (s, [], spi + 1, ty, subc)
+    | _, _ => none
+  else some (s, [], spi, code, 0)
 
 /-- `parse_mip_page`; returns FALSE on error -/
 def parseMipPage (s : Net) (vtp : Page) (pgno : Nat) (code : Option Nat) (spi : Nat) :
@@ -897,76 +961,47 @@ def parseMipPage (s : Net) (vtp : Page) (pgno : Nat) (code : Option Nat) (spi : 
   match code with
   | none => (s, [], spi, false)
   | some code =>
+    -- `ps = cache_network_page_stat (vbi->cn, pgno)` comes first
     if (0x52 ≤ code && code ≤ 0x6F) || (0xD2 ≤ code && code ≤ 0xDF) || (0xFA ≤ code && code ≤ 0xFC) || code == 0xFF then
-      (s, if (statIdx pgno).isNone then [Aux.fault "assert:cache_network_page_stat"] else [], spi, true)
+      (s, statAssert pgno, spi, true)
     else
-      -- (state, events, spi, code, subc) or failure
-      let r : Option (Net × List Aux × Nat × Nat × Nat) :=
-        if (0x02 ≤ code && code ≤ 0x4F) || (0x82 ≤ code && code ≤ 0xCF) then
-          some (s, [], spi, if code ≥ 0x80 then PT_PROGR_SCHEDULE else PT_NORMAL, code &&& 0x7F)
-        else if 0x70 ≤ code && code ≤ 0x77 then
-          let (cp, s, e1) := s.get pgno 0 0
-          -- `code & 7` is evaluated after `code = VBI_SUBTITLE_PAGE`, i.e. national = 0
-          let lang := pageLanguage s cp pgno 0
-          let (s, e2) := s.setStat pgno (fun ps => { ps with charset := intToU8 lang })
-          some (s, e1 ++ e2, spi, PT_SUBTITLE, 0)
-        else if code == 0x50 || code == 0x51 || code == 0xD0 || code == 0xD1 || code == 0xE0 || code == 0xE1
-                || code == 0x7B || code == 0xF8 then
-          if spi > 10 * 13 then none else
-          let row := vtp.raw.getD (spi / 13 + 15) zeroRow
-          let col := (spi % 13) * 3 + 1
-          let rv := rowView .rowH8 row
-          match rv.g16 col, rv.g8 (col + 2) with
-          | some lo, some hi =>
-            let subc := lo ||| (hi <<< 8)
-            if code &&& 15 == 1 then
-              some (s, [], spi + 1,
-                (if code == 0xF8 then PT_KEYWORD else if code == 0x7B then PT_CURRENT_PROGR
-                 else if code ≥ 0xE0 then PT_CA_DATA else if code ≥ 0xD0 then PT_PROGR_SCHEDULE else PT_NORMAL),
-                subc + 4096)
-            else if subc < 2 then none
-            else
-              some (s, [], spi + 1,
-                (if code == 0xF8 then PT_KEYWORD else if code == 0x7B then PT_CURRENT_PROGR
-                 else if code ≥ 0xE0 then PT_CA_DATA else if code ≥ 0xD0 then PT_PROGR_SCHEDULE else PT_NORMAL),
-                subc)
-          | _, _ => none
-        else some (s, [], spi, code, 0)
-      match r with
-      | none => (s, if (statIdx pgno).isNone then [Aux.fault "assert:cache_network_page_stat"] else [], spi, false)
-      | some (s, ev, spi, code, subc) =>
-        let old := s.getStat pgno
-        let (s, e) := s.setStat pgno (fun ps =>
+      match mipClassify s vtp pgno code spi with
+      | none => (s, statAssert pgno, spi, false)
+      | some r =>
+        let old := r.1.getStat pgno
+        let code := r.2.2.2.1
+        let subc := r.2.2.2.2
+        let st := r.1.setStat pgno (fun ps =>
           let ps := if old.pageType == PT_UNKNOWN || old.pageType == PT_SUBTITLE || code != PT_NO_PAGE
                        || code == PT_SUBTITLE then { ps with pageType := code } else ps
           if old.pageType == PT_UNKNOWN || subc > old.subcode then { ps with subcode := subc } else ps)
-        (s, ev ++ e, spi, true)
+        (st.1, r.2.1 ++ st.2, r.2.2.1, true)
+
+/-- (packet, column of the byte pair, page number - magazine base) of the entries of a MIP, in
+    program order: packets 1..8 two decades each, packets 9..14 the hex pages -/
+def mipOffsets : List (Nat × Nat × Nat) :=
+  ((List.range 8).flatMap fun k =>
+    ((List.range 10).map fun i => (k + 1, 2 * i, 0x20 * k + i)) ++
+    ((List.range 10).map fun i => (k + 1, 20 + 2 * i, 0x20 * k + 0x10 + i))) ++
+  ((List.range 6).flatMap fun k =>
+    ((List.range 6).map fun i => (k + 9, 2 * i, 0x30 * k + 0x0A + i)) ++
+    (if k + 9 == 14 then [] else
+      ((List.range 6).map fun i => (k + 9, 12 + 2 * i, 0x30 * k + 0x1A + i)) ++
+      ((List.range 6).map fun i => (k + 9, 24 + 2 * i, 0x30 * k + 0x2A + i))))
+
+/-- one entry of `parse_mip`: acc = ((network, subpage index, failed), events) -/
+def mipStep (vtp : Page) (base : Nat) (acc : (Net × Nat × Bool) × List Aux) (it : Nat × Nat × Nat) :
+    (Net × Nat × Bool) × List Aux :=
+  if acc.1.2.2 then acc else
+  if vtp.lopPackets &&& (1 <<< it.1) == 0 then acc else
+  let rv := rowView .rowH8 (vtp.raw.getD it.1 zeroRow)
+  let r := parseMipPage acc.1.1 vtp (base + it.2.2) (rv.g16 it.2.1) acc.1.2.1
+  ((r.1, r.2.2.1, !r.2.2.2), acc.2 ++ r.2.1)
 
 /-- `parse_mip (vbi, vtp)` -/
 def parseMip (s : Net) (vtp : Page) : Net × List Aux :=
-  let base := vtp.pgno &&& 0xF00
-  -- list of (packet, column of the byte pair, pgno) in program order
-  let items1 : List (Nat × Nat × Nat) := (List.range 8).flatMap fun k =>
-    let packet := k + 1
-    let pg := base + 0x20 * k
-    ((List.range 10).map fun i => (packet, 2 * i, pg + i)) ++
-    ((List.range 10).map fun i => (packet, 20 + 2 * i, pg + 0x10 + i))
-  let items2 : List (Nat × Nat × Nat) := (List.range 6).flatMap fun k =>
-    let packet := k + 9
-    let pg := base + 0x30 * k
-    ((List.range 6).map fun i => (packet, 2 * i, pg + 0x0A + i)) ++
-    (if packet == 14 then [] else
-      ((List.range 6).map fun i => (packet, 12 + 2 * i, pg + 0x1A + i)) ++
-      ((List.range 6).map fun i => (packet, 24 + 2 * i, pg + 0x2A + i)))
-  let (s, ev, _, _) := (items1 ++ items2).foldl (fun (acc : Net × List Aux × Nat × Bool) it =>
-    let (s, ev, spi, failed) := acc
-    if failed then acc else
-    let (packet, col, pgno) := it
-    if vtp.lopPackets &&& (1 <<< packet) == 0 then acc else
-    let rv := rowView .rowH8 (vtp.raw.getD packet zeroRow)
-    let (s, e, spi, ok) := parseMipPage s vtp pgno (rv.g16 col) spi
-    (s, ev ++ e, spi, !ok)) (s, [], 0, false)
-  (s, ev)
+  let r := mipOffsets.foldl (mipStep vtp (vtp.pgno &&& 0xF00)) ((s, 0, false), [])
+  (r.1.1, r.2)
 
 /-! ## X/27, X/28, M/29, 8/30 -/
 
@@ -1017,58 +1052,60 @@ def getBits (bs : BitStream) (count : Nat) : Nat × BitStream :=
   let mask := (1 <<< count) - 1
   if count > bs.left then
     let n := count - bs.left
-    let (nb, rest, ur) := match bs.rest with
-      | t :: r => (t, r, bs.underrun)
-      | [] => (0, [], true)
+    let nb := bs.rest.headD 0
     let r := bs.buffer ||| ((nb <<< bs.left) % 4294967296)
-    (r &&& mask, { rest := rest, buffer := nb >>> n, left := 18 - n, underrun := ur })
+    (r &&& mask, { rest := bs.rest.tail, buffer := nb >>> n, left := 18 - n,
+                   underrun := bs.underrun || bs.rest.isEmpty })
   else
     (bs.buffer &&& mask, { bs with buffer := bs.buffer >>> count, left := bs.left - count })
 
+def getBitsStep (count : Nat) (acc : List Nat × BitStream) (_k : Nat) : List Nat × BitStream :=
+  let r := getBits acc.2 count
+  (acc.1 ++ [r.1], r.2)
+
 def getBitsN (bs : BitStream) (count n : Nat) : List Nat × BitStream :=
-  (List.range n).foldl (fun (acc : List Nat × BitStream) _ =>
-    let (l, bs) := acc
-    let (x, bs) := getBits bs count
-    (l ++ [x], bs)) ([], bs)
+  (List.range n).foldl (getBitsStep count) ([], bs)
 
 def rgba4 (col : Nat) : Nat :=
   let c := (col &&& 15) ||| (((col >>> 4) &&& 15) <<< 8) ||| (((col >>> 8) &&& 15) <<< 16) ||| 0xFF000000
   (c ||| (c <<< 4)) % 4294967296
 
+/-- one CLUT entry of X/28/0, X/28/4: 12 bits; entry 8 (transparent) is read but not stored -/
+def colorStep (j : Nat) (acc : List Nat × BitStream) (k : Nat) : List Nat × BitStream :=
+  let i := j - 16 + k
+  let r := getBits acc.2 12
+  if i == 8 then (acc.1, r.2) else (acc.1.set i (rgba4 r.1), r.2)
+
 /-- the body of `parse_28_29` for designation 0 / 4 after `ext` was selected -/
 def ext04 (ext : Ext) (designation : Nat) (bs : BitStream) : Ext × BitStream :=
   let skip := designation == 4 && ext.designations &&& 1 != 0
-  let (ext, bs) :=
+  let a : Ext × BitStream :=
     if skip then (ext, (getBits bs 21).2)
     else
-      let (c0, bs) := getBits bs 7
-      let (c1, bs) := getBits bs 7
-      let (lp, bs) := getBits bs 1
-      let (rpn, bs) := getBits bs 1
-      let (_, bs) := getBits bs 1
-      let (lc, bs) := getBits bs 4
-      let lc := if lp != 0 && lc == 0 then 16 else lc
-      ({ ext with charset0 := c0, charset1 := c1,
-                  leftCols := if lp != 0 then lc else 0,
-                  rightCols := if rpn != 0 then 16 - lc else 0 }, bs)
+      let c0 := getBits bs 7
+      let c1 := getBits c0.2 7
+      let lp := getBits c1.2 1
+      let rpn := getBits lp.2 1
+      let st := getBits rpn.2 1
+      let lc0 := getBits st.2 4
+      let lc := if lp.1 != 0 && lc0.1 == 0 then 16 else lc0.1
+      ({ ext with charset0 := c0.1, charset1 := c1.1,
+                  leftCols := if lp.1 != 0 then lc else 0,
+                  rightCols := if rpn.1 != 0 then 16 - lc else 0 }, lc0.2)
   let j := if designation == 4 then 16 else 32
-  let (cm, bs) := (List.range 16).foldl (fun (acc : List Nat × BitStream) k =>
-    let (cm, bs) := acc
-    let i := j - 16 + k
-    let (col, bs) := getBits bs 12
-    if i == 8 then (cm, bs) else (cm.set i (rgba4 col), bs)) (ext.colorMap, bs)
-  let ext := { ext with colorMap := cm }
-  let (ext, bs) :=
-    if skip then (ext, (getBits bs 14).2)
+  let c := (List.range 16).foldl (colorStep j) (a.1.colorMap, a.2)
+  let ext := { a.1 with colorMap := c.1 }
+  let b : Ext × BitStream :=
+    if skip then (ext, (getBits c.2 14).2)
     else
-      let (sc, bs) := getBits bs 5
-      let (rc, bs) := getBits bs 5
-      let (bb, bs) := getBits bs 1
-      let (i, bs) := getBits bs 3
-      ({ ext with defScreen := sc, defRow := rc, blackBg := bb,
-                  fgClut := [0, 0, 0, 8, 8, 16, 16, 16].getD i 0,
-                  bgClut := [0, 8, 16, 8, 16, 8, 16, 24].getD i 0 }, bs)
-  ({ ext with designations := ext.designations ||| (1 <<< designation) }, bs)
+      let sc := getBits c.2 5
+      let rc := getBits sc.2 5
+      let bb := getBits rc.2 1
+      let i := getBits bb.2 3
+      ({ ext with defScreen := sc.1, defRow := rc.1, blackBg := bb.1,
+                  fgClut := [0, 0, 0, 8, 8, 16, 16, 16].getD i.1 0,
+                  bgClut := [0, 8, 16, 8, 16, 8, 16, 24].getD i.1 0 }, i.2)
+  ({ b.1 with designations := b.1.designations ||| (1 <<< designation) }, b.2)
 
 def rev5 (x : Nat) : Nat := rev8 x >>> 3
 
@@ -1097,32 +1134,27 @@ def x28Decide (cvFunction : Int) (packet : Nat) (v : View) : X28Out :=
   | some designation =>
     let err := (List.range 13).any fun j => (v.g24 j).isNone
     let bs : BitStream := ⟨v.u24, 0, 0, false⟩
+    -- `function = get_bits (&bs, 4); coding = get_bits (&bs, 3);`
+    let fn := getBits bs 4
+    let cod := getBits fn.2 3
     if designation == 0 || designation == 4 then
-      if err then .nop false else
-      let (function, bs) := getBits bs 4
-      let (_, bs) := getBits bs 3
-      if function != 0 && packet == 28 && cvFunction != FN_UNKNOWN && cvFunction != (function : Int) then .nop false
-      else if function != 0 then .nop false
-      else .ext04 designation bs
+      if err then .nop false
+      else if fn.1 != 0 && packet == 28 && cvFunction != FN_UNKNOWN && cvFunction != (fn.1 : Int) then .nop false
+      else if fn.1 != 0 then .nop false
+      else .ext04 designation cod.2
     else if designation == 1 then
       -- unrepaired code uses the triplets without looking at `err` (finding F25)
       if ttxFixF25 && err then .nop false else .clut { bs with rest := bs.rest.drop 1 }
     else if designation == 3 then
       if packet == 29 then .nop true
       else if err then .nop false
+      else if (fn.1 : Int) != FN_GDRCS && (fn.1 : Int) != FN_DRCS then .nop false
       else
-        let (function, bs) := getBits bs 4
-        let (_, bs) := getBits bs 3
-        if (function : Int) != FN_GDRCS && (function : Int) != FN_DRCS then .nop false
-        else if cvFunction == FN_UNKNOWN then
-          let (_, bs) := getBits bs 11
-          let (modes, bs) := getBitsN bs 4 DRCS_PTUS
-          .becomeDrcs function modes (bsFaults bs)
-        else if cvFunction != (function : Int) then .discard
-        else
-          let (_, bs) := getBits bs 11
-          let (modes, bs) := getBitsN bs 4 DRCS_PTUS
-          .drcsModes modes (bsFaults bs)
+        let skip := getBits cod.2 11
+        let modes := getBitsN skip.2 4 DRCS_PTUS
+        if cvFunction == FN_UNKNOWN then .becomeDrcs fn.1 modes.1 (bsFaults modes.2)
+        else if cvFunction != (fn.1 : Int) then .discard
+        else .drcsModes modes.1 (bsFaults modes.2)
     else .nop true
 
 /-- select `ext`: the page's copy for X/28 (initialised from the magazine on first use and
@@ -1142,10 +1174,10 @@ def storeExt (s : St) (mag0 mag8 packet : Nat) (cv : Page) (ext : Ext) : St :=
 
 /-- the DRCS CLUT of X/28/1: 8 + 32 five-bit entries, bit-reversed -/
 def clutFrom (ext : Ext) (bs : BitStream) : Ext × BitStream :=
-  let (a, bs) := getBitsN bs 5 8
-  let (b, bs) := getBitsN bs 5 32
-  ({ ext with drcsClut := ext.drcsClut.take 2 ++ a.map rev5 ++ b.map rev5,
-              designations := ext.designations ||| 2 }, bs)
+  let a := getBitsN bs 5 8
+  let b := getBitsN a.2 5 32
+  ({ ext with drcsClut := ext.drcsClut.take 2 ++ a.1.map rev5 ++ b.1.map rev5,
+              designations := ext.designations ||| 2 }, b.2)
 
 /-- `parse_28_29 (vbi, p, cvtp, mag8, packet)` -/
 def parse2829 (s : St) (mag0 mag8 packet : Nat) (v : View) : St × List Aux × Bool :=
@@ -1181,43 +1213,43 @@ def parse830 (s : St) (v : View) : St × Bool :=
 
 /-! ## vbi_convert_page (cached = FALSE) -/
 
+/-- re-parse stored row `k + 1` of a page that turns out to be a (G)POP page -/
+def convPopStep (vtp : Page) (acc : Bool × List Aux) (k : Nat) : Bool × List Aux :=
+  if !acc.1 then acc else
+  if vtp.lopPackets &&& (1 <<< (k + 1)) == 0 then acc else
+  let r := parsePop (rowView .trip (vtp.raw.getD (k + 1) zeroRow)) (k + 1)
+  (r.1, acc.2 ++ r.2)
+
+def convAitStep (vtp : Page) (acc : Unit × List Aux) (k : Nat) : Unit × List Aux :=
+  if vtp.lopPackets &&& (1 <<< (k + 1)) == 0 then acc else ((), acc.2 ++ parseAitBounds (k + 1))
+
+def convMptStep (vtp : Page) (acc : Net × List Aux) (k : Nat) : Net × List Aux :=
+  if vtp.lopPackets &&& (1 <<< (k + 1)) == 0 then acc else
+  let r := parseMpt acc.1 (rowView .rowH8 (vtp.raw.getD (k + 1) zeroRow)).g8 (k + 1)
+  (r.1, acc.2 ++ r.2)
+
+def convMptExStep (vtp : Page) (acc : Net × List Aux) (k : Nat) : Net × List Aux :=
+  if vtp.lopPackets &&& (1 <<< (k + 1)) == 0 then acc else
+  let r := parseMptEx acc.1 (unhamTopPageLink (rowView .rowH8 (vtp.raw.getD (k + 1) zeroRow))) (k + 1)
+  (r.1, acc.2 ++ r.2)
+
 /-- new function of the page and new network record; `none` = conversion refused, page unchanged -/
 def convertPage (n : Net) (vtp : Page) (newFn : Int) : Option Page × Net × List Aux :=
   if vtp.function != FN_UNKNOWN then (none, n, [])
   else if newFn == FN_LOP then (some { vtp with function := FN_LOP }, n, [])
   else if newFn == FN_GPOP || newFn == FN_POP then
-    let (ok, ev) := (List.range 25).foldl (fun (acc : Bool × List Aux) k =>
-      let (ok, ev) := acc
-      if !ok then acc else
-      let i := k + 1
-      if vtp.lopPackets &&& (1 <<< i) == 0 then acc else
-      let (r, e) := parsePop (rowView .trip (vtp.raw.getD i zeroRow)) i
-      (r, ev ++ e)) (true, [])
-    if ok then (some { vtp with function := newFn }, n, ev) else (none, n, ev)
+    let r := (List.range 25).foldl (convPopStep vtp) (true, [])
+    if r.1 then (some { vtp with function := newFn }, n, r.2) else (none, n, r.2)
   else if newFn == FN_GDRCS || newFn == FN_DRCS then
     (some { vtp with function := newFn, drcsMode := List.replicate DRCS_PTUS 0 }, n, [])
   else if newFn == FN_AIT then
-    let ev := (List.range 23).foldl (fun ev k =>
-      if vtp.lopPackets &&& (1 <<< (k + 1)) == 0 then ev else ev ++ parseAitBounds (k + 1)) []
-    (some { vtp with function := newFn }, n, ev)
+    (some { vtp with function := newFn }, n, ((List.range 23).foldl (convAitStep vtp) ((), [])).2)
   else if newFn == FN_MPT then
-    let (n, ev) := (List.range 20).foldl (fun (acc : Net × List Aux) k =>
-      let (n, ev) := acc
-      let i := k + 1
-      if vtp.lopPackets &&& (1 <<< i) == 0 then acc else
-      let rv := rowView .rowH8 (vtp.raw.getD i zeroRow)
-      let (n, e) := parseMpt n rv.g8 i
-      (n, ev ++ e)) (n, [])
-    (some { vtp with function := newFn }, n, ev)
+    let r := (List.range 20).foldl (convMptStep vtp) (n, [])
+    (some { vtp with function := newFn }, r.1, r.2)
   else if newFn == FN_MPT_EX then
-    let (n, ev) := (List.range 20).foldl (fun (acc : Net × List Aux) k =>
-      let (n, ev) := acc
-      let i := k + 1
-      if vtp.lopPackets &&& (1 <<< i) == 0 then acc else
-      let rv := rowView .rowH8 (vtp.raw.getD i zeroRow)
-      let (n, e) := parseMptEx n (unhamTopPageLink rv) i
-      (n, ev ++ e)) (n, [])
-    (some { vtp with function := newFn }, n, ev)
+    let r := (List.range 20).foldl (convMptExStep vtp) (n, [])
+    (some { vtp with function := newFn }, r.1, r.2)
   else (none, n, [])
 
 /-- function implied by the page type of the page statistics (header branch, lines 2431-2516) -/
@@ -1284,56 +1316,65 @@ def terminatePage (s : St) (mag0 pgno page : Nat) : St × List Event :=
 def hdrRejected (page : Nat) (sub12 sub34 fl : Int) : Bool :=
   page == 0xFF || (if ttxFixF21 then sub12 < 0 || sub34 < 0 else sub12 + sub34 * 256 < 0) || fl < 0
 
+/-- header branch: `_vbi_cache_get_page` unless the page is 1E7 or has the erase flag -/
+def headerLookup (n : Net) (cv : Page) : Option Page × Net × List Aux :=
+  if cv.pgno != 0x1E7 && cv.flags &&& C4_ERASE_PAGE == 0 then n.get cv.pgno cv.subno 0xFFFFFFFF
+  else (none, n, [])
+
+/-- header branch: continue the cached page `q`; the header row is copied for LOP / unknown pages -/
+def headerFromCache (cv q : Page) (row0 : List Nat) : Page × Bool :=
+  let copyHdr := q.function == FN_UNKNOWN || q.function == FN_LOP
+  ({ cv with function := q.function, raw := if copyHdr then q.raw.set 0 row0 else q.raw,
+             link := q.link, haveFlof := q.haveFlof, enh := q.enh, ext := q.ext,
+             drcsMode := if q.function == FN_DRCS || q.function == FN_GDRCS then q.drcsMode else cv.drcsMode,
+             lopPackets := q.lopPackets, x26 := q.x26, x27 := q.x27, x28 := q.x28 }, copyHdr)
+
+/-- header branch: build the page from scratch ("rebuilding from scratch") -/
+def headerFresh (n : Net) (cv0 : Page) (page : Nat) (row0 : List Nat) : Page × Net × List Aux × Bool :=
+  let cv := { cv0 with flags := cv0.flags ||| C4_ERASE_PAGE, lopPackets := 1, x26 := 0, x27 := 0, x28 := 0 }
+  if cv.pgno == 0x1F0 then
+    let r := n.setStat cv.pgno (fun ps => { ps with pageType := PT_TOP_PAGE })
+    ({ cv with function := FN_BTT }, r.1, r.2, false)
+  else if cv.pgno == 0x1E7 then
+    let r := n.setStat cv.pgno (fun ps => { ps with pageType := PT_DISP_SYSTEM, subcode := 0 })
+    ({ cv with function := FN_EACEM, raw := List.replicate 26 blankRow,
+               enh := List.replicate ENH_SIZE Triplet.ff }, r.1, r.2, false)
+  else if page == 0xFD then
+    let r := n.setStat cv.pgno (fun ps => { ps with pageType := PT_SYSTEM })
+    ({ cv with function := FN_MIP }, r.1, r.2, false)
+  else if page == 0xFE then
+    let r := n.setStat cv.pgno (fun ps => { ps with pageType := PT_SYSTEM })
+    ({ cv with function := FN_MOT }, r.1, r.2, false)
+  else
+    ({ cv with function := FN_UNKNOWN, raw := row0 :: List.replicate 25 blankRow,
+               link := List.replicate LINKS Link.ff, enh := List.replicate ENH_SIZE Triplet.ff,
+               haveFlof := 0 }, n, [], true)
+
+/-- header branch: a page of unknown function gets the function its page type implies -/
+def headerConvert (n : Net) (cv : Page) (page : Nat) : Page × Net × List Aux :=
+  if cv.function == FN_UNKNOWN then
+    let fn := functionOfType n (n.getStat cv.pgno).pageType cv.pgno page
+    if fn != FN_UNKNOWN then
+      let r := convertPage n cv fn
+      match r.1 with
+      | some cv' => (cv', r.2.1, r.2.2)
+      | none => (cv, r.2.1, r.2.2)
+    else (cv, n, [])
+  else (cv, n, [])
+
 /-- Accepted header, "Prepare for new page" (packet.c:2321-2516): the new content of the magazine's
     assembly page, built from the cached copy or from scratch, and the new network record.
     `cv0` already carries the new page number.  Last component: were the 40 header bytes copied. -/
 def headerPage (n : Net) (cv0 : Page) (page subpage fl : Nat) (row0 : List Nat) :
     Page × Net × List Aux × Bool :=
-  let pgno := cv0.pgno
   let cv := { cv0 with subno := subpage &&& 0x3F7F, national := rev8 fl &&& 7, flags := (fl <<< 16) + subpage }
-  let lookup : Option Page × Net × List Aux :=
-    if pgno != 0x1E7 && cv.flags &&& C4_ERASE_PAGE == 0 then n.get cv.pgno cv.subno 0xFFFFFFFF
-    else (none, n, [])
-  let (hit, n, e1) := lookup
-  let (cv, n, e2, copied) : Page × Net × List Aux × Bool :=
-    match hit with
-    | some q =>
-      let copyHdr := q.function == FN_UNKNOWN || q.function == FN_LOP
-      ({ cv with function := q.function, raw := if copyHdr then q.raw.set 0 row0 else q.raw,
-                 link := q.link, haveFlof := q.haveFlof, enh := q.enh, ext := q.ext,
-                 drcsMode := if q.function == FN_DRCS || q.function == FN_GDRCS then q.drcsMode else cv.drcsMode,
-                 lopPackets := q.lopPackets, x26 := q.x26, x27 := q.x27, x28 := q.x28 }, n, [], copyHdr)
-    | none =>
-      let cv := { cv with flags := cv.flags ||| C4_ERASE_PAGE }
-      let (cv, n, e, copied) : Page × Net × List Aux × Bool :=
-        if cv.pgno == 0x1F0 then
-          let (n, e) := n.setStat cv.pgno (fun ps => { ps with pageType := PT_TOP_PAGE })
-          ({ cv with function := FN_BTT }, n, e, false)
-        else if cv.pgno == 0x1E7 then
-          let (n, e) := n.setStat cv.pgno (fun ps => { ps with pageType := PT_DISP_SYSTEM, subcode := 0 })
-          ({ cv with function := FN_EACEM, raw := List.replicate 26 blankRow,
-                     enh := List.replicate ENH_SIZE Triplet.ff }, n, e, false)
-        else if page == 0xFD then
-          let (n, e) := n.setStat cv.pgno (fun ps => { ps with pageType := PT_SYSTEM })
-          ({ cv with function := FN_MIP }, n, e, false)
-        else if page == 0xFE then
-          let (n, e) := n.setStat cv.pgno (fun ps => { ps with pageType := PT_SYSTEM })
-          ({ cv with function := FN_MOT }, n, e, false)
-        else
-          ({ cv with function := FN_UNKNOWN, raw := row0 :: List.replicate 25 blankRow,
-                     link := List.replicate LINKS Link.ff, enh := List.replicate ENH_SIZE Triplet.ff,
-                     haveFlof := 0 }, n, [], true)
-      ({ cv with lopPackets := 1, x26 := 0, x27 := 0, x28 := 0 }, n, e, copied)
-  let (cv, n, e3) : Page × Net × List Aux :=
-    if cv.function == FN_UNKNOWN then
-      let fn := functionOfType n (n.getStat cv.pgno).pageType cv.pgno page
-      if fn != FN_UNKNOWN then
-        match convertPage n cv fn with
-        | (some cv', n, e) => (cv', n, e)
-        | (none, n, e) => (cv, n, e)
-      else (cv, n, [])
-    else (cv, n, [])
-  (cv, n, e1 ++ e2 ++ e3, copied)
+  let lk := headerLookup n cv
+  let b : Page × Net × List Aux × Bool :=
+    match lk.1 with
+    | some q => ((headerFromCache cv q row0).1, lk.2.1, [], (headerFromCache cv q row0).2)
+    | none => headerFresh lk.2.1 cv page row0
+  let c := headerConvert b.2.1 b.1 page
+  (c.1, c.2.1, lk.2.2 ++ b.2.2.1 ++ c.2.2, b.2.2.2)
 
 /-- packet 0 after the page number decoded.  Returns the result and whether the 40 header bytes
     were copied into `raw[0]` (then `raw[0][0..7]` are patched in by `finish`). -/
